@@ -27,7 +27,7 @@ pub open spec fn zs<A: Iterator, B: Iterator>(z: core::iter::Zip<A, B>) -> B { v
 pub assume_specification<T, E, U, F: FnOnce(T) -> Result<U, E>> [Result::<T, E>::and_then] (r: Result<T, E>, f: F) -> (o: Result<U, E>)
     requires r is Ok ==> f.requires((r->Ok_0,))
     ensures r is Err ==> (o is Err && o->Err_0 == r->Err_0), r is Ok ==> f.ensures((r->Ok_0,), o);
-pub broadcast axiom fn ax_into_iter_seq_slice<'a, T>(s: &'a [T]) ensures #[trigger] into_iter_seq(s).len() == s@.len();
+pub broadcast axiom fn ax_into_iter_seq_slice<'a, T>(s: &'a [T]) ensures (#[trigger] into_iter_seq(s)).len() == s@.len(), forall|k: int| 0 <= k < s@.len() ==> *(#[trigger] into_iter_seq(s)[k]) == s@[k];
 pub broadcast axiom fn ax_into_iter_seq_arr2<T>(s: [T; 2]) ensures #[trigger] into_iter_seq(s).len() == 2;
 #[verifier::prophetic]
 pub uninterp spec fn into_iter_len<I: IntoIterator>(i: I) -> nat;
